@@ -243,7 +243,7 @@ def run(P, rep, tier):
             muts.setdefault(m_[0], m_)
     if muts:
         for name, (nm, loc, fn, txt) in sorted(muts.items()):
-            rep.violation(r6, 'shared-mutated:%s' % txt, loc, 'the reader mutates the shared %s (%s in %s): the order relation changes '
+            rep.violation(r6, 'shared-mutated:%s' % txt, loc, 'the reader mutates the shared %s (%s in %s): what is accepted changes '
                           'for every later section and every other reader' % (nm, txt, fn), path=[fn])
     else:
         rep.ok(r6, 'reader paths', {'paths': total_paths})
